@@ -358,3 +358,113 @@ contigs_with_reads = Contract(
     assumptions=['pysam.idxstats returns "contig<TAB>length<TAB>mapped<TAB>unmapped" lines (A4)'],
 )
 UNITS.append(contigs_with_reads)
+
+
+# ------------------------------------------------------------------------------ -method qflag: every record is its own fragment
+# ReadIterator hands single records to the molecule iterator; Fragment.__init__ refuses a fragment whose first slot holds an
+# un-failed read 2 ("Supply first R1 then R2").  For every primary record to come out of the tagger, the record must sit
+# in the slot of its own mate number.
+FIT = 'singlecellmultiomics/molecule/iterator.py'
+FFR = 'singlecellmultiomics/fragment/fragment.py'
+
+
+def ri_setup(eng):
+    eng.ghost.clear()
+    rec = stubs.make_read(eng, 'record', tags={}, closed=True, mapped=True, free_unmapped=True)
+    eng.spec_env['REC'] = rec
+    eng.spec_env['MORE'] = named(BOOL, 'iterator_has_a_record')
+
+    def nxt(e, a, k, n):
+        if e.branch(e.spec_env['MORE'].z):
+            return rec
+        from pyvc.engine import PyRaise
+        raise PyRaise('StopIteration')
+    eng.spec_env['NEXT'] = Builtin('next', nxt)
+
+
+def ri_self(eng, name):
+    it = Obj('RecordSource', {})
+    it.vc_immutable = True
+    return Obj('ReadIterator', {'iterator': it}, info=eng.loader.classref(FIT, 'ReadIterator'))
+
+
+read_iterator = Contract(
+    PROP, FIT + '::ReadIterator.__next__', name='ReadIterator.__next__[record in the slot of its mate number]',
+    params={'self': ri_self},
+    setup=ri_setup,
+    pre_state=lambda eng, fr: fr.env.update({'next': eng.spec_env['NEXT']}),
+    ensures={
+        'a_read2_record_goes_to_the_second_slot': 'implies(REC.is_read2, result[0] is None and result[1] is REC)',
+        'any_other_record_goes_to_the_first_slot': 'implies(not REC.is_read2, result[0] is REC and result[1] is None)',
+    },
+    raises={'StopIteration': 'not MORE'},
+    assumptions=['the underlying pysam iterator yields every primary record once (A4)'],
+)
+
+
+def first_slot_block(f):
+    c = blocks.find_nodes(f, lambda n: isinstance(n, __import__('ast').If) and __import__('ast').unparse(n.test) == 'i == 0')
+    return c[:1]
+
+
+def fs_read(eng, name):
+    return stubs.make_read(eng, name, tags={}, closed=True, mapped=True, free_unmapped=True)
+
+
+first_slot = Contract(
+    PROP, FFR + '::Fragment.__init__', name='Fragment.__init__[what the first slot accepts]',
+    block=first_slot_block,
+    params={'self': ('obj', 'Fragment', {}, FFR), 'read': fs_read, 'i': 'int'},
+    requires=['i == 0 or i == 1'],
+    ensures={'mate_numbers_follow_the_slots': '(read.is_read1 == (i == 0)) and (read.is_read2 == (i == 1))'},
+    # the constructor refuses exactly: an un-failed read 2 in the first slot
+    raises={'ValueError': 'i == 0 and old(read).is_read2 and not old(read).is_qcfail'},
+)
+UNITS += [read_iterator, first_slot]
+
+
+def qflag_replay(inputs, clause):
+    """the real command line: bamtagmultiome -method qflag on the repository's paired-end test BAM; the tagged BAM must hold
+    every primary record once"""
+    import collections
+    import importlib
+    import io
+    import os
+    import shutil
+    import sys
+    import tempfile
+    from contextlib import redirect_stdout, redirect_stderr
+    import pysam
+    from pyvc.loader import REPO
+    if REPO not in sys.path:
+        sys.path.insert(0, REPO)
+    mod = importlib.import_module('singlecellmultiomics.universalBamTagger.bamtagmultiome')
+    src = os.path.join(REPO, 'data', 'mini_nla_test.bam')
+    if not os.path.exists(src):
+        return {'status': 'no-input', 'note': 'test BAM data/mini_nla_test.bam not present'}
+    base = os.path.join(os.path.dirname(os.path.dirname(os.path.abspath(__file__))), '.scratch')
+    os.makedirs(base, exist_ok=True)
+    d = tempfile.mkdtemp(prefix='c05q_', dir=base)
+    try:
+        out = os.path.join(d, 'out.bam')
+        err = None
+        try:
+            with redirect_stdout(io.StringIO()), redirect_stderr(io.StringIO()):
+                mod.run_multiome_tagging_cmd([src, '-method', 'qflag', '-o', out])
+        except BaseException as e:      # noqa
+            err = '%s: %s' % (type(e).__name__, e)
+        key = lambda r: (r.query_name.split(';')[-1][-20:], r.is_read2, r.reference_start, r.cigarstring)
+        want = collections.Counter((r.is_read2, r.reference_start, r.cigarstring) for r in pysam.AlignmentFile(src) if not (r.flag & 0x900))
+        got = collections.Counter((r.is_read2, r.reference_start, r.cigarstring) for r in pysam.AlignmentFile(out)) if os.path.exists(out) else None
+        status_path = out.replace('.bam', '.status.txt')
+        obs = {'outcome': 'raise' if err else 'return', 'value': {'error': err, 'input_records': sum(want.values()),
+                                                                  'output_records': sum(got.values()) if got is not None else None,
+                                                                  'status': open(status_path).read().strip() if os.path.exists(status_path) else None}}
+        if err or got != want:
+            return {'status': 'confirmed', 'observed': obs, 'failed': [{'clause': clause, 'why': 'tagging with -method qflag does not conserve the records'}]}
+        return {'status': 'not-reproduced', 'observed': obs}
+    finally:
+        shutil.rmtree(d, ignore_errors=True)
+
+
+read_iterator.replay = qflag_replay
